@@ -97,10 +97,10 @@ class TLCResult:
         """Decoded values (use printed_to_file for large outputs)."""
         return [json.loads(t) for t in self.iter_printed(tag)]
 
-    def printed_to_file(self, tag, path):
+    def printed_to_file(self, tag, path, mode="w"):
         """Writes the printed JSON values as ndjson without holding them in memory; returns the count."""
         n = 0
-        with open(path, "w") as f:
+        with open(path, mode) as f:
             for t in self.iter_printed(tag):
                 f.write(t)
                 f.write("\n")
